@@ -4,6 +4,7 @@ def b_XMLFileWriter_write_header : CR.SrcW.Builder where
   kind := .fill
   tag := ""
   xsd := "/commonRoad"
+  path := []
   parent := ""
   attrs := [("timeStepSize", (.decimalToStr "_.scenario.dt")), ("commonRoadVersion", (.raw "SCENARIO_VERSION")), ("author", (.raw "_.author")), ("affiliation", (.raw "_.affiliation")), ("source", (.raw "_.source")), ("date", (.other "datetime.datetime.today().strftime('%Y-%m-%d')"))]
   gattrs := [("benchmarkID", (.str "_.scenario.scenario_id")), ("benchmarkID", (.const "-1"))]
